@@ -15,3 +15,4 @@ pub mod shutdown;
 pub mod multitopic;
 pub mod peerloss;
 pub mod rrslow;
+pub mod rereg;
